@@ -25,6 +25,38 @@ use serde::{Deserialize, Serialize};
 use std::collections::{BTreeMap, BTreeSet};
 
 pub const DATA: u64 = 0x20_0000;
+
+const STRAIGHT_X86: &str = include_str!("../corpus/x86_straight.txt");
+const STRAIGHT_AMD64: &str = include_str!("../corpus/amd64_straight.txt");
+const STRAIGHT_MIPS: &str = include_str!("../corpus/mips_straight.txt");
+const STRAIGHT_PPC: &str = include_str!("../corpus/ppc_straight.txt");
+const STRAIGHT_A64: &str = include_str!("../corpus/aarch64_straight.txt");
+
+/// straight-line units harvested from falcon's own lifter tests (hex, in the byte
+/// order of `arch`): more instruction variety than the assembler forms
+fn straight_units(arch: Arch) -> Vec<String> {
+    let text = match arch {
+        Arch::X86 => STRAIGHT_X86,
+        Arch::Amd64 => STRAIGHT_AMD64,
+        Arch::Mips | Arch::Mipsel => STRAIGHT_MIPS,
+        Arch::Ppc => STRAIGHT_PPC,
+        _ => STRAIGHT_A64,
+    };
+    text.lines()
+        .filter(|l| !l.trim().is_empty())
+        .map(|l| {
+            if arch == Arch::Mipsel {
+                let mut b = asm::unhex(l.trim());
+                for w in b.chunks_mut(4) {
+                    w.reverse();
+                }
+                asm::hex(&b)
+            } else {
+                l.trim().to_string()
+            }
+        })
+        .collect()
+}
 const EVENT_CAP: usize = 1500;
 const RAW_CAP: usize = 30_000;
 
@@ -292,9 +324,37 @@ fn build_memory(case: &Case, l: &Layout, c: &mut Counters) -> Mem {
         }
         _ => {
             let exec_on_backing = case.perms_on != "paged";
+            // Which units are re-stored into the paged layer? For those the backing holds a
+            // *decoy* (nops of the same length): a reader that wrongly bypasses the paged
+            // layer sees a different program. Units that cannot be re-stored completely keep
+            // their true bytes in the backing.
+            let mut restored: BTreeMap<u64, usize> = BTreeMap::new();
+            for &(slot, width) in &case.restore {
+                let slot = slot.min(l.slots.len() - 1);
+                let a = l.addrs[slot];
+                if unit_fully_mapped(l, a) {
+                    restored.insert(a, width.clamp(1, 8));
+                }
+            }
+            let decoy_unit = |len: usize| -> Vec<u8> {
+                if case.arch.is_x86() {
+                    vec![0x90; len]
+                } else {
+                    let nop = asm::encode(case.arch, &Slot::Pad(1), 0, 0);
+                    nop.iter().cycle().take(len).cloned().collect()
+                }
+            };
             let mut b = backing::Memory::new(endian.clone());
             for (a, d) in &l.islands {
-                b.set_memory(*a, d.clone(), MemoryPermissions::from_bits_truncate(if exec_on_backing { 5 } else { 1 }));
+                let mut data = d.clone();
+                for (ua, _) in &restored {
+                    let ulen = l.units[ua].len();
+                    if *ua >= *a && *ua + ulen as u64 <= *a + d.len() as u64 {
+                        let off = (*ua - *a) as usize;
+                        data[off..off + ulen].copy_from_slice(&decoy_unit(ulen));
+                    }
+                }
+                b.set_memory(*a, data, MemoryPermissions::from_bits_truncate(if exec_on_backing { 5 } else { 1 }));
             }
             let mut m = falcon::executor::Memory::new_with_backing(endian, RC::new(b));
             if case.perms_on != "backing" {
@@ -302,25 +362,27 @@ fn build_memory(case: &Case, l: &Layout, c: &mut Counters) -> Mem {
                     m.set_permissions(*a, d.len() as u64, MemoryPermissions::from_bits_truncate(5));
                 }
             }
-            for &(slot, width) in &case.restore {
-                let slot = slot.min(l.slots.len() - 1);
-                let a = l.addrs[slot];
-                let bytes = &l.units[&a];
+            for (a, width) in &restored {
+                let bytes = &l.units[a];
                 let mut off = 0;
                 while off < bytes.len() {
-                    let w = width.clamp(1, 8).min(bytes.len() - off);
-                    if !(0..w as u64).all(|i| mapped(l, a + off as u64 + i)) {
-                        break;
-                    }
+                    let w = (*width).min(bytes.len() - off);
                     let chunk = &bytes[off..off + w];
                     let v = if case.arch.big_endian() {
                         BigUint::from_bytes_be(chunk)
                     } else {
                         BigUint::from_bytes_le(chunk)
                     };
-                    let _ = m.store(a + off as u64, il::Constant::new_big(v, w * 8));
-                    c.inc("layered.bytes-served-from-paged-layer");
+                    m.store(*a + off as u64, il::Constant::new_big(v, w * 8)).expect("re-store into the paged layer");
+                    c.add("layered.bytes-served-from-paged-layer", w as u64);
                     off += w;
+                }
+            }
+            if !restored.is_empty() {
+                c.inc("layered.images-with-decoy-backing");
+                let pages: BTreeSet<u64> = l.islands.iter().flat_map(|(a, d)| [*a >> 10, (*a + d.len() as u64 - 1) >> 10]).collect();
+                if pages.len() > 1 {
+                    c.inc("layered.image-spans-pages");
                 }
             }
             Mem::Layered(m)
@@ -345,7 +407,7 @@ struct RunResult {
     units_run: u64,
 }
 
-fn initial_state(case: &Case, l: &Layout, seed: u64) -> RState {
+fn initial_state(case: &Case, l: &Layout, seed: u64, extra: &BTreeMap<String, usize>) -> RState {
     let arch = case.arch;
     let mut rng = Rng::new(seed);
     let mut scalars = Scalars::new();
@@ -368,6 +430,23 @@ fn initial_state(case: &Case, l: &Layout, seed: u64) -> RState {
             Val::from_u64(rng.corner64(), b)
         };
         scalars.insert(n.to_string(), v);
+    }
+    // every other scalar the program's instructions mention (harvested units use
+    // registers the assembler forms do not): address-sized ones mostly point into data
+    for (n, b) in extra {
+        if scalars.contains_key(n) || n.starts_with("temp") || n == "branching_condition" {
+            continue;
+        }
+        let v = if *b == 1 {
+            Val::from_u64(rng.below(2), 1)
+        } else if *b == arch.addr_bits() && rng.chance(1, 2) {
+            Val::from_u64(DATA + 64 + rng.below(256), *b)
+        } else if *b <= 64 {
+            Val::from_u64(rng.corner64(), *b)
+        } else {
+            Val::new(BigUint::from_bytes_be(&rng.bytes(b.div_ceil(8))), *b)
+        };
+        scalars.insert(n.clone(), v);
     }
     let mut mem = ByteModel::new(arch.big_endian());
     let mut data = rng.bytes(512);
@@ -961,8 +1040,34 @@ pub fn execute(case: &Case) -> Outcome {
     // ---- behaviour: run both from every initial state
     let mut nontrivial = false;
     let mut term_kind = "none".to_string();
+    let mut mentioned: BTreeMap<String, usize> = BTreeMap::new();
+    for lift in cache.values().flatten() {
+        for g in &lift.graphs {
+            for instrs in g.blocks.values() {
+                for i in instrs {
+                    match &i.op {
+                        il::Operation::Assign { src, .. } => crate::val::collect_scalars(src, &mut mentioned),
+                        il::Operation::Load { index, .. } => crate::val::collect_scalars(index, &mut mentioned),
+                        il::Operation::Store { index, src } => {
+                            crate::val::collect_scalars(index, &mut mentioned);
+                            crate::val::collect_scalars(src, &mut mentioned);
+                        }
+                        il::Operation::Branch { target } => crate::val::collect_scalars(target, &mut mentioned),
+                        _ => {}
+                    }
+                }
+            }
+            for edges in g.out.values() {
+                for e in edges {
+                    if let Some(c) = &e.cond {
+                        crate::val::collect_scalars(c, &mut mentioned);
+                    }
+                }
+            }
+        }
+    }
     for &seed in &case.state_seeds {
-        let st0 = initial_state(case, &l, seed);
+        let st0 = initial_state(case, &l, seed, &mentioned);
         let sys = match run_system(&rfunc, &resolvable, st0.clone()) {
             Ok(r) => r,
             Err(mut v) => {
@@ -1094,6 +1199,8 @@ pub fn generate(run_seed: u64, index: u64) -> Case {
     let n = rng.range(3, 48) as usize;
     let pad_rate = *rng.pick(&[0u64, 10, 30]);
     let branch_rate = *rng.pick(&[5u64, 15, 30]);
+    let raw_rate = *rng.pick(&[0u64, 0, 20, 50]);
+    let straight = straight_units(arch);
     let mut slots: Vec<Slot> = Vec::new();
     let delay = |rng: &mut Rng| -> Option<Box<Slot>> {
         if arch.is_mips() && rng.chance(3, 4) {
@@ -1124,6 +1231,8 @@ pub fn generate(run_seed: u64, index: u64) -> Case {
                 8 => Slot::Call { target, delay: delay(&mut rng) },
                 _ => Slot::Term { kind: rng.below(3) as u8, a: rng.below(8) as u8, delay: delay(&mut rng) },
             }
+        } else if !straight.is_empty() && rng.below(100) < raw_rate {
+            Slot::Raw(rng.pick(&straight).clone())
         } else {
             gen_op(&mut rng, arch)
         };
@@ -1137,7 +1246,12 @@ pub fn generate(run_seed: u64, index: u64) -> Case {
         3 if arch.addr_bits() == 64 => 0x3fff_ffff_0000_0000,
         _ => 0x1_0000 * rng.range(1, 0xfff),
     };
-    let base = (region + rng.below(4096)) & !(align - 1);
+    let base = if rng.chance(1, 3) {
+        // end of a 1024-byte page of the copy-on-write layer: the image spans two pages
+        (region + 1024 * rng.range(1, 3) - rng.range(1, 100)) & !(align - 1)
+    } else {
+        (region + rng.below(4096)) & !(align - 1)
+    };
     let mut case = Case {
         arch,
         slots,
